@@ -3,6 +3,7 @@
 observation checking, evidence files. Standard library only."""
 import glob
 import hashlib
+import concurrent.futures
 import json
 import os
 import re
@@ -55,9 +56,9 @@ BASE_CONSTANTS = {
     "G_LeaderFlush": "TRUE", "G_StaleTermAppend": "TRUE",
     "G_ConfigCommittedFirst": "TRUE", "G_OwnTermBeforeConfig": "TRUE", "G_PromoteAfterRound": "TRUE",
     "G_NonVoterNoElection": "TRUE", "G_StepDownWhenDemoted": "TRUE",
-    "G_XferCaughtUp": "TRUE", "G_XferBlocksEntries": "TRUE", "G_XferSuccessOnHigherTerm": "TRUE",
+    "G_XferCaughtUp": "TRUE", "G_XferBlocksEntries": "TRUE", "G_XferSuccessOnHigherTerm": "TRUE", "G_CommitMonotone": "TRUE",
     "MaxRoundOrd": 3, "SegSize": 1024, "UpdBytes": 300, "MaxSnaps": 0, "FixD4": "TRUE", "FixD5": "TRUE", "FixD11": "TRUE", "FixD3": "TRUE", "FixD13": "TRUE", "RoundFastSet": "{TRUE}", "MaxCfgReqs": 0, "EdAddPromote": "{}", "EdAddNonvoter": "{}", "EdPromote": "{}", "EdDemote": "{}", "EdRemove": "{}", "EdForceRemove": "{}",
-    "FixD1": "TRUE", "FixD2": "TRUE", "MaxXfers": 0, "MaxXferTries": 2, "XferTargets": "{None}",
+    "FixD1": "TRUE", "FixD2": "TRUE", "MaxXfers": 0, "MaxXferTries": 2, "XferTargets": "{None}", "ClientOps": '{"update"}',
 }
 
 
@@ -159,7 +160,7 @@ def ev_to_step(ev):
     if k == "ldrUpdates":
         return {"k": k, "n": N(ev["n"])}
     if k == "client":
-        return {"k": "client", "n": N(ev["n"]), "ops": [{"op": "update", "id": ev["val"]}]}
+        return {"k": "client", "n": N(ev["n"]), "ops": [{"op": ev.get("op", "update"), "id": ev["val"]}]}
     if k in ("fsm", "crash", "restart", "shutdown"):
         return {"k": k, "n": N(ev["n"])}
     if k == "changeConfig":
@@ -190,9 +191,11 @@ def schedule_from_events(name, events, consts):
             if e.get("rf") is False:
                 st["rf"] = False
             steps.append(st)
+    eager = {"ldr": c["EagerLdr"] == "TRUE", "poll": c["EagerPoll"] == "TRUE", "fsm": c["EagerFsm"] == "TRUE"}
+    if int(c.get("MaxAppend", 64)) < 64:
+        eager["maxAppend"] = int(c["MaxAppend"])
     return {"name": name, "nodes": node_set(c["Node"]), "voters": node_set(c["InitVoters"]), "nonvoters": node_set(c["InitNonvoters"]),
-            "eager": {"ldr": c["EagerLdr"] == "TRUE", "poll": c["EagerPoll"] == "TRUE", "fsm": c["EagerFsm"] == "TRUE"},
-            "steps": steps}
+            "eager": eager, "steps": steps}
 
 
 def cex_events(path):
@@ -313,18 +316,69 @@ def count_lines(path):
 
 
 # ---------------------------------------------------------------- observation check (O)
-def obs_check(records, workdir, timeout=900):
-    """TLC evaluates the RaftProps operators on the recorded real-code states.
-    Returns (violations [[prop, sched, seq]...], records_checked)."""
+def split_runs(records, workdir, shards, tag):
+    """Splits a record file into up to `shards` files at run boundaries (a record with ev.kind = init starts a run)."""
+    runs, cur = [], []
+    with open(records) as f:
+        for line in f:
+            if '"kind":"init"' in line and cur:
+                runs.append(cur)
+                cur = []
+            cur.append(line)
+    if cur:
+        runs.append(cur)
+    k = max(1, min(shards, len(runs)))
+    runs.sort(key=len, reverse=True)
+    bins = [[] for _ in range(k)]
+    sizes = [0] * k
+    for r in runs:
+        i = sizes.index(min(sizes))
+        bins[i].append(r)
+        sizes[i] += len(r)
+    os.makedirs(workdir, exist_ok=True)
+    out = []
+    for i, b in enumerate(bins):
+        if not b:
+            continue
+        p = os.path.join(workdir, "%s-shard-%d.ndjson" % (tag, i))
+        with open(p, "w") as f:
+            for r in b:
+                f.writelines(r)
+        out.append(p)
+    return out
+
+
+PAR = max(1, NCPU // 2)
+
+
+def _obs_one(records, workdir, timeout):
     cfg = "CONSTANTS None = 0\nINIT Init\nNEXT Next\nINVARIANT Report\n"
-    r = tlc(os.path.join(workdir, "obs"), "RaftObs", cfg, args=["-workers", "1"], timeout=timeout,
-            env={"VERIF_TRACE": records}, name="RaftObs")
+    r = tlc(workdir, "RaftObs", cfg, args=["-workers", "1"], timeout=timeout, env={"VERIF_TRACE": records}, name="RaftObs", heap="3g")
     m = re.search(r'<<"OBS-RESULT", "(.*)", (\d+)>>', r["out"])
     if not m:
         raise HarnessError("observation check did not complete:\n" + r["out"][-3000:])
     txt = m.group(1).replace('\\"', '"')
-    viol = json.loads(txt)
-    return viol, int(m.group(2))
+    return json.loads(txt), int(m.group(2))
+
+
+def obs_check(records, workdir, timeout=900):
+    """TLC evaluates the RaftProps operators on the recorded real-code states (runs are sharded over parallel TLC
+    processes). Returns (violations [[prop, sched, seq]...], records_checked)."""
+    global _obs_seq
+    _obs_seq += 1
+    base = os.path.join(workdir, "obs%d" % _obs_seq)
+    shards = split_runs(records, base, PAR, "obs")
+    viol, n = [], 0
+    with concurrent.futures.ThreadPoolExecutor(max_workers=PAR) as ex:
+        futs = [ex.submit(_obs_one, sh, os.path.join(base, "w%d" % i), timeout) for i, sh in enumerate(shards)]
+        for f in futs:
+            v, k = f.result()
+            viol += v
+            n += k
+    return sorted(viol), n
+
+
+_obs_seq = 0
 
 
 # ---------------------------------------------------------------- trace validation (T)
@@ -333,7 +387,7 @@ TRACE_CONSTS = {"None": "0", "MaxTerm": 100000, "MaxLog": 100000, "MaxCmds": 100
                 "MaxRoundOrd": 100000, "MaxCfgReqs": 100000, "MaxSnaps": 100000, "RoundFastSet": "{TRUE, FALSE}", "MaxXfers": 100000, "MaxXferTries": 100000}
 
 
-def trace_validate(records, workdir, sched0, timeout=900, max_drifts=4):
+def _trace_one(records, workdir, sched0, timeout=900, max_drifts=4):
     """Validates the recorded real-code behaviours against Raft.tla (RaftTrace.tla).
     All runs in `records` must share the cluster constants of schedule `sched0`.
     Returns dict(accepted_runs, total_runs, drifts=[{sched, seq}], records)."""
@@ -343,7 +397,8 @@ def trace_validate(records, workdir, sched0, timeout=900, max_drifts=4):
     consts.update(TRACE_CONSTS)
     consts.update({"Node": ids(sched0["nodes"]), "InitVoters": ids(sched0["voters"]), "InitNonvoters": ids(sched0["nonvoters"]),
                    "EagerLdr": "TRUE" if sched0["eager"]["ldr"] else "FALSE", "EagerPoll": "TRUE" if sched0["eager"]["poll"] else "FALSE",
-                   "EagerFsm": "TRUE" if sched0["eager"]["fsm"] else "FALSE"})
+                   "EagerFsm": "TRUE" if sched0["eager"]["fsm"] else "FALSE",
+                   "MaxAppend": sched0["eager"].get("maxAppend") or 64})
     cfg = "\n".join(["CONSTANTS"] + [" %s = %s" % (k, v) for k, v in consts.items()] + ["INIT TInit", "NEXT TNext", "INVARIANT Progress"]) + "\n"
     os.makedirs(workdir, exist_ok=True)
     lines = open(records).read().splitlines()
@@ -384,6 +439,23 @@ def trace_validate(records, workdir, sched0, timeout=900, max_drifts=4):
             "complete": attempt <= max_drifts}
 
 
+def trace_validate(records, workdir, sched0, timeout=900, max_drifts=4):
+    """Sharded over parallel TLC processes; see _trace_one."""
+    shards = split_runs(records, workdir, PAR, "tv")
+    res = {"total_runs": 0, "drifts": [], "accepted_runs": 0, "records": 0, "complete": True}
+    with concurrent.futures.ThreadPoolExecutor(max_workers=PAR) as ex:
+        futs = [ex.submit(_trace_one, sh, os.path.join(workdir, "s%d" % i), sched0, timeout, max_drifts) for i, sh in enumerate(shards)]
+        for f in futs:
+            r = f.result()
+            res["total_runs"] += r["total_runs"]
+            res["accepted_runs"] += r["accepted_runs"]
+            res["records"] += r["records"]
+            res["drifts"] += r["drifts"]
+            res["complete"] = res["complete"] and r["complete"]
+    res["drifts"].sort(key=lambda d: (str(d["sched"]), d["seq"]))
+    return res
+
+
 # ---------------------------------------------------------------- known findings
 def load_known():
     path = os.path.join(VERIF, "known_findings.jsonl")
@@ -402,8 +474,10 @@ def write_evidence(pid, tier, seed, level, coverage, assumptions, wall, violatio
           "assumptions": assumptions, "wall_s": round(wall, 2), "violations": violations}
     if extra:
         ev.update(extra)
-    os.makedirs(os.path.join(VERIF, "evidence"), exist_ok=True)
-    with open(os.path.join(VERIF, "evidence", pid + ".json"), "w") as f:
+    # (VERIF_EVIDENCE_DIR: only for experiments on scratch copies of the repository, e.g. seeded changes)
+    evdir = os.environ.get("VERIF_EVIDENCE_DIR", os.path.join(VERIF, "evidence"))
+    os.makedirs(evdir, exist_ok=True)
+    with open(os.path.join(evdir, pid + ".json"), "w") as f:
         json.dump(ev, f, indent=1)
     return ev
 
